@@ -279,7 +279,7 @@ func (i *Interp) strSlice(s *Term, lo, hi value) value {
 	if s.Const && l.Const && h.Const {
 		return TStr(s.S[l.U:h.U])
 	}
-	return app(SStr, 0, "str.substr", s, app(SBV, 0, "bv2nat", l), app(SBV, 0, "bv2nat", BVBin("bvsub", h, l)))
+	return StrSubstr(s, IntOf(l), IntBin("-", IntOf(h), IntOf(l)))
 }
 
 func (i *Interp) strIndex(s, idx *Term) value {
@@ -289,8 +289,8 @@ func (i *Interp) strIndex(s, idx *Term) value {
 	if s.Const && idx.Const {
 		return TBV(8, uint64(s.S[idx.U]))
 	}
-	fault("symbolic string index")
-	return nil
+	// byte = code point of the one-character string at idx (ASCII alphabets only)
+	return app(SBV, 8, "(_ int2bv 8)", app(SInt, 0, "str.to_code", StrAt(s, IntOf(idx))))
 }
 
 func (i *Interp) lookup(instr *ssa.Lookup, x, key value) value {
